@@ -1,5 +1,7 @@
 import Octo.Model.PacketWindow
 import Octo.Model.Addr
+import Octo.Model.SsConfig
+import Octo.Crypto.Real
 import Std.Data.HashMap
 /-!
   Line-protocol driver: reads `op args… [=> impl-result]` lines on stdin, runs the *model
@@ -9,9 +11,22 @@ open Octo
 
 namespace Driver
 
+def C : Crypto := Crypto.real
+
+/-- replay cache of a context as the driver tracks it: salt and the second it was recorded -/
+structure SsCtxObj where
+  ctx : Ss.Ctx
+  seen : List (Bytes × Nat) := []
+
+structure SsStream where
+  ctxName : String
+  enc : Ss.Enc := {}
+  fr : FrSt Ss.SrvDec
+
 inductive Obj where
   | pw (f : PW.Filter)
-  | buf (b : Bytes)
+  | ssCtx (c : SsCtxObj)
+  | ss (s : SsStream)
 
 structure St where
   objs : Std.HashMap String Obj := {}
@@ -66,6 +81,77 @@ def utf8Ok : Bytes → Bool
 termination_by b => b.length
 decreasing_by all_goals (simp_wf; try omega)
 
+def kv (toks : List String) (key : String) : Option String :=
+  toks.findSome? fun t => if t.startsWith (key ++ "=") then some ((t.drop (key.length + 1)).toString) else none
+
+def parseUsers (s : String) : List (String × String) :=
+  if s == "-" then [] else
+  (s.splitOn ";").filterMap fun u =>
+    match u.splitOn ":" with
+    | n :: rest => if rest.isEmpty then none else some (n, String.intercalate ":" rest)
+    | _ => none
+
+def showAddrSlash (a : Addr) : String := (showAddr a).replace ":" "/"
+
+/-- canonical event text; adjacent data is merged so that item granularity does not matter -/
+def evTokens : List FrEv → List (String × Bytes) → List (String × Bytes)
+  | [], acc => acc.reverse
+  | .item i :: r, acc =>
+    match i.kind, acc with
+    | .data, (h, d) :: acc' =>
+      if h.startsWith "d" || h.startsWith "c" then evTokens r ((h, d ++ i.data) :: acc')
+      else evTokens r (("d", i.data) :: acc)
+    | .data, [] => evTokens r [("d", i.data)]
+    | .connect, _ => evTokens r (("c:" ++ (i.addr.map showAddrSlash).getD "-", i.data) :: acc)
+    | .udp, _ => evTokens r (("u:" ++ (i.addr.map showAddrSlash).getD "-", i.data) :: acc)
+  | .err :: r, acc => evTokens r (("err", []) :: acc)
+  | .panic :: r, acc => evTokens r (("panic", []) :: acc)
+  | .ended :: r, acc => evTokens r (("end", []) :: acc)
+  | .spin :: r, acc => evTokens r (("spin", []) :: acc)
+
+def showEvents (evs : List FrEv) : String :=
+  let toks := (evTokens evs []).map fun (h, d) =>
+    if h == "err" || h == "panic" || h == "end" || h == "spin" then h else s!"{h}:{hexOrDash d}"
+  if toks.isEmpty then "-" else String.intercalate " " toks
+
+def ssCall (ctx : Ss.Ctx) (env : Ss.DecEnv) (s : Ss.SrvDec) (b : Bytes) : Call Ss.SrvDec :=
+  match s.dec.sess.mode with
+  | .server => Ss.serverCall C ctx env s b
+  | .client =>
+    let c := Ss.clientCall C ctx env s.dec b
+    ⟨{ s with dec := c.st }, c.buf, c.res⟩
+
+/-- recover the randomness (salt, timestamp, padding) the implementation drew for the first
+`encode` of a session from its output, so that the model encoder can be compared byte for byte -/
+def ssRecover (ctx : Ss.Ctx) (sess : Ss.Sess) (w : Bytes) : Bytes × Ss.EncRand :=
+  let n := ctx.kind.n
+  let salt := w.take n
+  if ¬ ctx.kind.is2022 then (salt, {}) else
+  let eihLen := if sess.mode = .client ∧ ctx.kind.supportEih then 16 * ctx.identityKeys.length else 0
+  let key := match sess.user with
+    | some u => u.key
+    | none => ctx.key
+  let a := Ss.newAuth C ctx.kind key salt
+  let fixedLen := 1 + 8 + (match sess.requestSalt with | some r => r.length | none => 0) + 2 + 16
+  let body := w.drop (n + eihLen)
+  match a.openB C (body.take fixedLen) with
+  | (none, _) => (salt, {})
+  | (some f, a) =>
+    let ts := rdBE ((f.drop 1).take 8)
+    let len := rdBE (f.drop (f.length - 2))
+    match a.openB C ((body.drop fixedLen).take (len + 16)) with
+    | (none, _) => (salt, { now := ts })
+    | (some via, _) =>
+      if sess.mode = .client then
+        match Socks5Addr.decode via with
+        | .ok (_, rest) =>
+          let pl := rdBE (rest.take 2)
+          (salt, { now := ts, padding := (rest.drop 2).take pl })
+        | _ => (salt, { now := ts })
+      else (salt, { now := ts })
+
+def ttlLive (now : Nat) (e : Bytes × Nat) : Bool := now ≤ e.2 + Consts.ssSaltTtl
+
 def showRes {α : Type} (f : α → String) : Res α → String
   | .ok a => "ok " ++ f a
   | .more => "more"
@@ -105,6 +191,76 @@ def step (st : St) (toks : List String) : St × String :=
     match unhexOrDash h with
     | some b => (st, showRes (fun (p : Addr × Bytes) => s!"{showAddr p.1} rest={hexOrDash p.2}") (VmessAddr.read utf8Ok b))
     | none => (st, "bad-op")
+  | "ss.cctx" :: name :: rest =>
+    match kv rest "cipher", kv rest "password" with
+    | some c, some p =>
+      match Ss.ctxOfConfig C c p [] with
+      | some ctx => ({ st with objs := st.objs.insert name (.ssCtx { ctx := { ctx with users := [] } }) }, "ok")
+      | none => (st, "err")
+    | _, _ => (st, "bad-op")
+  | "ss.sctx" :: name :: rest =>
+    match kv rest "cipher", kv rest "password", kv rest "users" with
+    | some c, some p, some u =>
+      match Ss.ctxOfConfig C c p (parseUsers u) with
+      | some ctx => ({ st with objs := st.objs.insert name (.ssCtx { ctx := ctx }) }, "ok")
+      | none => (st, "err")
+    | _, _, _ => (st, "bad-op")
+  | ["ss.new", name, ctxName, addr] =>
+    match st.objs.get? ctxName with
+    | some (.ssCtx _) =>
+      let a := if addr == "-" then none else parseAddr addr
+      let mode : Ss.Mode := if addr == "-" then .server else .client
+      let sess : Ss.Sess := { mode := mode, salt := [], address := a }
+      let o : SsStream := { ctxName := ctxName, fr := { st := { dec := { sess := sess }, header := true } } }
+      ({ st with objs := st.objs.insert name (.ss o) }, "ok")
+    | _ => (st, "bad-op")
+  | "st.enc" :: name :: payload :: rest =>
+    match st.objs.get? name, unhexOrDash payload with
+    | some (.ss o), some p =>
+      match st.objs.get? o.ctxName with
+      | some (.ssCtx co) =>
+        let implWire := (kv rest "impl").bind unhexOrDash
+        let sess := o.fr.st.dec.sess
+        match o.enc.auth, implWire with
+        | none, none => (st, "need-impl-wire")
+        | none, some w =>
+          let (salt, r) := ssRecover co.ctx sess w
+          let sess := { sess with salt := salt }
+          let (mw, e) := Ss.encode C co.ctx sess o.enc p r
+          let now := ((kv rest "now").bind String.toNat?).getD r.now
+          let tsOk := ¬ co.ctx.kind.is2022 ∨ (now ≤ r.now + 1 ∧ r.now ≤ now + 1)
+          let o' := { o with enc := e, fr := { o.fr with st := { o.fr.st with dec := { o.fr.st.dec with sess := sess } } } }
+          ({ st with objs := st.objs.insert name (.ss o') }, if tsOk then hexOrDash mw else "bad-ts " ++ hexOrDash mw)
+        | some _, _ =>
+          let (mw, e) := Ss.encode C co.ctx sess o.enc p {}
+          ({ st with objs := st.objs.insert name (.ss { o with enc := e }) }, hexOrDash mw)
+      | _ => (st, "bad-op")
+    | _, _ => (st, "bad-op")
+  | "st.feed" :: name :: piece :: rest =>
+    match st.objs.get? name, unhexOrDash piece with
+    | some (.ss o), some p =>
+      match st.objs.get? o.ctxName with
+      | some (.ssCtx co) =>
+        let now := ((kv rest "now").bind String.toNat?).getD 0
+        let env : Ss.DecEnv := { now := now, saltSeen := fun s => co.seen.any (fun e => e.1 == s && ttlLive now e) }
+        let before := o.fr.st.dec.chunk.isNone
+        let (fr', evs) := frFeed (ssCall co.ctx env) o.fr p
+        let accepted := before ∧ fr'.st.dec.chunk.isSome ∧ co.ctx.kind.is2022 ∧ fr'.st.dec.sess.mode = .server
+        let co' := if accepted then { co with seen := ((fr'.st.dec.sess.requestSalt.getD []), now) :: co.seen } else co
+        let objs := (st.objs.insert name (.ss { o with fr := fr' })).insert o.ctxName (.ssCtx co')
+        ({ st with objs := objs }, showEvents evs)
+      | _ => (st, "bad-op")
+    | _, _ => (st, "bad-op")
+  | ["st.eof", name] =>
+    match st.objs.get? name with
+    | some (.ss o) =>
+      match st.objs.get? o.ctxName with
+      | some (.ssCtx co) =>
+        let env : Ss.DecEnv := { now := 0, saltSeen := fun _ => false }
+        let (fr', evs) := frEof (ssCall co.ctx env) o.fr
+        ({ st with objs := st.objs.insert name (.ss { o with fr := fr' }) }, showEvents evs)
+      | _ => (st, "bad-op")
+    | _ => (st, "bad-op")
   | ["addr.accept", a] =>
     match parseAddr a with
     | some a => (st, if decide a.Accepted then "1" else "0")
@@ -119,8 +275,16 @@ partial def loop (h : IO.FS.Stream) (out : IO.FS.Stream) (st : St) : IO Unit := 
     out.putStrLn ""
     loop h out st
   else
-    let lhs := (line.splitOn " => ").head!
+    let parts := line.splitOn " => "
+    let lhs := parts.head!
     let toks := (lhs.splitOn " ").filter (· ≠ "")
+    -- encoders draw randomness inside the implementation: give the model the implementation's
+    -- output so that it can recover the random values and re-encode
+    let toks := if toks.head? == some "st.enc" then
+        match parts with
+        | [_, r] => toks ++ ["impl=" ++ (r.trimAscii.toString.splitOn " ").head!]
+        | _ => toks
+      else toks
     let (st', r) := step st toks
     out.putStrLn r
     loop h out st'
